@@ -108,9 +108,16 @@ func checkSingle(c Case) (out []ev.Finding) {
 		}
 	}
 	// if the source compiles, so must the formatted text
-	if _, _, _, err := syntax.ParseSourceBytes([]byte(src), "t.mro", []string{incDir}, false); err == nil {
+	if expanded, _, astc, err := syntax.ParseSourceBytes([]byte(src), "t.mro", []string{incDir}, false); err == nil {
 		if _, _, _, err := syntax.ParseSourceBytes([]byte(f1), "t.mro", []string{incDir}, false); err != nil {
 			report("output-does-not-compile", "the source compiles but its formatting does not: "+firstLine(err.Error()))
+		}
+		// the rendering mrp records (_mrosource) must compile on its own to
+		// the same program
+		if _, _, aste, err := syntax.ParseSourceBytes([]byte(expanded), "t.mro", []string{incDir}, false); err != nil {
+			report("expanded-source-does-not-compile", "the include-expanded rendering of a compiling source does not compile: "+firstLine(err.Error())+"\n--- rendering ---\n"+ev.Short(expanded, 1200))
+		} else if ce, cc := astcanon.Canon(aste), astcanon.Canon(astc); ce != cc && !strings.Contains(src, "@include") {
+			report("expanded-source-changed", "the include-expanded rendering denotes a different program:\n"+diffAt(cc, ce))
 		}
 	}
 	return out
@@ -426,6 +433,82 @@ func main() {
 			})
 		}
 	}
+	// call modifiers: every combination of keyword-form and bound-form
+	// local / preflight / volatile (+ disabled) on a call that may carry them
+	{
+		const modTemplate = `stage CHECK(
+    in  int a,
+    src comp "check",
+)
+
+stage WORK(
+    in  int a,
+    out int r,
+    src comp "work",
+)
+
+pipeline P(
+    in  int  a,
+    in  bool d,
+    out int  r,
+)
+{
+    call@KW@ CHECK(
+        a = self.a,
+    )@USING@
+
+    call WORK(
+        a = self.a,
+    )
+
+    return (
+        r = WORK.r,
+    )
+}
+`
+		kws := []string{"local", "preflight", "volatile"}
+		vals := []string{"", "true", "false"}
+		for kmask := 0; kmask < 8; kmask++ {
+			kw := ""
+			for i, k := range kws {
+				if kmask&(1<<i) != 0 {
+					kw += " " + k
+				}
+			}
+			for _, bl := range vals {
+				for _, bp := range vals {
+					for _, bv := range vals {
+						for _, dis := range []bool{false, true} {
+							// the same modifier in both syntaxes has no defined meaning
+							if (kmask&1 != 0 && bl != "") || (kmask&2 != 0 && bp != "") || (kmask&4 != 0 && bv != "") {
+								continue
+							}
+							var entries []string
+							if dis {
+								entries = append(entries, "        disabled  = self.d,")
+							}
+							if bl != "" {
+								entries = append(entries, "        local     = "+bl+",")
+							}
+							if bp != "" {
+								entries = append(entries, "        preflight = "+bp+",")
+							}
+							if bv != "" {
+								entries = append(entries, "        volatile  = "+bv+",")
+							}
+							using := ""
+							if len(entries) > 0 {
+								using = " using (\n" + strings.Join(entries, "\n") + "\n    )"
+							}
+							src := strings.Replace(strings.Replace(modTemplate, "@KW@", kw, 1), "@USING@", using, 1)
+							cases = append(cases, Case{Kind: "single", Src: src,
+								Desc: fmt.Sprintf("modifiers:kw=%s:local=%s:preflight=%s:volatile=%s:disabled=%v", strings.TrimSpace(strings.ReplaceAll(kw, " ", "+")), bl, bp, bv, dis)})
+						}
+					}
+				}
+			}
+		}
+	}
 	// call orders: permutations of three independent calls + one dependent
 	{
 		calls := []string{
@@ -491,7 +574,7 @@ func main() {
 	cases = append(cases, multi...)
 
 	r.Rule = fmt.Sprintf("a template program with %d literal/string/number/keyword slots: the base, every 1-slot and every 2-slot substitution from per-slot value lists (negative, huge and tiny numbers, every escape form, non-ASCII, nested empty collections, struct vs map literals, strings with quotes/backslashes in src/help/outname/special); "+
-		"every optional clause removed singly and in pairs (split, using, retains, modifiers in both syntaxes, help, call); a comment before each of 22 element positions singly and in pairs, dangling before every closing bracket, inside collections and resource/modifier lists; all 24 orders of 4 calls; every .mro fixture of the repository; 6 include graphs. "+
+		"every optional clause removed singly and in pairs (split, using, retains, modifiers in both syntaxes, help, call); all 128 combinations of local/preflight/volatile each absent, in keyword form, bound true or bound false (+disabled) on one call; for compiling sources the include-expanded rendering (what mrp records as _mrosource) must compile on its own to the same program; a comment before each of 22 element positions singly and in pairs, dangling before every closing bracket, inside collections and resource/modifier lists; all 24 orders of 4 calls; every .mro fixture of the repository; 6 include graphs. "+
 		"oracle: formatted text parses, canonical position-free tree equal, comments kept (exactly once when not dangling), fixed point, compiles if the source did, include-expanded text compiles alone with an equal call graph. distinct = distinct source texts; non-trivial = accepted by the parser", len(slots))
 	if only := os.Getenv("VERIF_ONLY"); only != "" {
 		var sel []Case
@@ -547,7 +630,6 @@ func main() {
 	})
 	r.Finish()
 }
-
 
 // classSig reduces "C09:kind:slots:A=va,B=vb" to the kind and the
 // responsible slot=value pairs: if one of the two substitutions already fails
